@@ -117,6 +117,10 @@ def seeded(argv):
                 elif rc != 0:
                     first = first or f"rc={rc} " + out.strip().splitlines()[-1][:120]
             ok = meta["property"] in detected_by
+            if not ok and meta.get("expected") == "not_detected":
+                rows.append({"id": sid, "property": meta["property"], "detected_by": detected_by, "documented_miss": meta.get("why_not_detected", "")})
+                print(f"KNOWN-MISS {meta['property']} {sid:<43} {meta.get('why_not_detected', '')[:120]}", flush=True)
+                continue
             if not ok:
                 bad += 1
             rows.append({"id": sid, "property": meta["property"], "detected_by": detected_by, "first": first})
